@@ -970,7 +970,11 @@ do_map(Ctx& x, int s)
         return;
     std::vector<const VideoFrame*> frames;
     if (walk_packet(x, "monitor", s, (const uint8_t*)b, n, averaged, &frames)) {
-        x.c.ended = true; // the client cannot consume a region it cannot parse: the case ends here
+        // the client cannot consume a region it cannot parse: whatever it is, it is not the gap-free
+        // sequence of correct frames C06 promises (C05 has judged the structure itself); the case ends here
+        if (!x.c.ended)
+            x.c.fail("C06", "monitor-region", "not-a-frame-sequence", "stream %d: the %zu-byte region mapped by the monitoring client is not a sequence of whole frames", s, n);
+        x.c.ended = true;
         return;
     }
     for (const VideoFrame* f : frames)
